@@ -103,7 +103,7 @@ pub(crate) mod kani_verif {
     fn c08_tree_h2_n16() {
         check_tree::<16>(LmsAlgorithm::LmsH2, 2);
     }
-    // @h props=C08,C07,C01,C10 tier=thorough kind=bounded cfg=w8big timeout=3600 funcs=get_tree_element note="complete 32-leaf tree" contract="same, h=5, n=16 (63 nodes)"
+    // @h props=C08,C07,C01,C10 tier=extended kind=bounded cfg=w8big timeout=3600 funcs=get_tree_element note="complete 32-leaf tree" contract="same, h=5, n=16 (63 nodes)"
     #[kani::proof]
     #[kani::stub(zeroize::optimization_barrier, no_barrier)]
     #[kani::stub(<[u8; 32] as tinyvec::Array>::default, fast_default)]
